@@ -1,6 +1,7 @@
 """Compressed-stream generators for the decoder-level checks (C09, C14, C13, C03...)."""
 from vlib import corpus, core
 
+METHODS_FUZZ = ["lz4", "lz5", "lzs", "lh0", "lh1", "lh4", "lh5", "lh6", "lh7", "lhx", "lk7", "pm0", "pm1", "pm2"]   # order of harness/fuzz_decoder.c
 METHODS = ["lz4", "lz5", "lzs", "lh0", "lh1", "lh4", "lh5", "lh6", "lh7", "lhx", "lk7", "pm0", "pm1", "pm2"]
 LHNEW = {"lh4": (4, 510), "lh5": (4, 510), "lh6": (5, 510), "lh7": (5, 510), "lhx": (5, 510), "lk7": (6, 289)}
 
